@@ -66,7 +66,7 @@ fn run_op(op: &SOp, api: &Api, monitor: &Arc<StdMutex<Option<Monitor>>>, log: &A
             let r = api.add_appointment(&a, sig);
             let handed_after = log.lock().unwrap().events.len();
             match r {
-                Ok(r) => format!("ok:slots={}:start={}:win={},{}", r.available_slots, r.start_block, done_before, handed_after),
+                Ok(r) => format!("ok:slots={}:expiry={}:start={}:win={},{}", r.available_slots, r.subscription_expiry, r.start_block, done_before, handed_after),
                 Err(e) => format!("err:{:?}", e.code),
             }
         }
